@@ -393,6 +393,12 @@ func (fr *Frame) execBlock(b *ssa.BasicBlock, st0 *State) {
 			e.oblige("auto-inv-init", c.id, fr.pc, c.term(fr, fr.vals[c.phi]), e.posOf(li.head.Instrs[0].Pos()), "inferred loop invariant "+c.desc)
 		}
 		fr.havocLoop(li, phis)
+		if _, used := e.keySort["X:lastsendalloc"]; used || (e.spec != nil && len(e.spec.OnSend) > 0) {
+			// the "previous send" allocation mark was taken at some earlier point: it is not above the
+			// allocation bound reached here
+			e.keySort["X:lastsendalloc"] = sRef
+			e.assume(mkImp(fr.pc, app("<=", e.heapGet(fr.st, "X:lastsendalloc", sRef), fr.st.alloc)))
+		}
 		// loopiter: the ghost count of completed iterations (physical: below 2^40)
 		li.iterHead = e.fresh("loopiter", sBV64)
 		e.assume(mkAnd(app("bvsle", bvLitI(64, 0), li.iterHead), app("bvslt", li.iterHead, bvLitI(64, 1<<40))))
@@ -469,6 +475,9 @@ func (fr *Frame) loopWrites(li *loopInfo) (keys map[string]bool, all bool) {
 			// the engine's ghost bookkeeping of channel sends
 			if _, ok := fr.e.L.specs.GhostVars["chansends"]; ok {
 				keys["X:chansends"] = true
+			}
+			if fr.e.spec != nil && depth == 0 && len(fr.e.spec.OnSend) > 0 {
+				keys["X:lastsendalloc"] = true
 			}
 			if fr.e.spec != nil && depth == 0 {
 				for g := range fr.e.spec.OnSendAdd {
